@@ -5,7 +5,7 @@
      P2 the committed parent (store path), P3 the child (memory path), then the datastore is
      closed and reopened, P4 the child (memory reloaded), P5 the parent (store path); then the
      child is modified and P6 reads the committed parent again (store path, must be unchanged). *)
-From DV Require Import Base.Prelude Model.NJ.
+From DV Require Import Base.Prelude Model.NJ Model.NJQuery Model.NJOrd.
 Local Open Scope N_scope.
 
 (* short constructor names keep the generated files small *)
@@ -26,6 +26,17 @@ Definition sh11 := mkShow true true.
    for every key the request addressed, read right after it *)
 Record obsop := mkObs { ob_op : op; ob_cls : oclass; ob_back : list (N * option obj) }.
 
+(* a POST query sent after P3 to the child (head: memory path) or to the committed parent (store
+   path): the answer, and whether everything the instance's store holds (every key and value, by
+   digest) and the instance's own metadata were the same before and after the request *)
+Record roprobe := mkRO { ro_head : bool; ro_body : qbody; ro_onlyid : bool; ro_fm : list bytes; ro_sh : shows;
+                         ro_ans : rres; ro_same : bool }.
+(* one update (user, conditionals, replace, the stored annotation, the posted body) repeated on the
+   real code — whose map iteration order differs from run to run — with the time stamp and the
+   annotation read back (show=all) of every run *)
+Record ordobs := mkOO { oo_user : bytes; oo_conds : list bytes; oo_replace : bool; oo_orig : option obj;
+                        oo_body : list (bytes * json); oo_runs : list (bytes * obj) }.
+
 Record c16case := mkCase {
   c_hist : list obsop;
   c_rx : list (bytes * option (list (bytes * bool)));   (* regexp oracle: pattern -> compiled? -> string -> match *)
@@ -39,6 +50,8 @@ Record c16case := mkCase {
      of the head (memory path) and of its committed copy (store path); not compared with the
      sequential model *)
   c_conc : list (rreq * list rres);
+  c_ro : list roprobe;      (* POST query probes (Props/C16_readonly.v) *)
+  c_ord : list ordobs;      (* only in the case named "ordering" (Proofs/NJOrd.v) *)
 }.
 
 Definition rx_of (tbl : list (bytes * option (list (bytes * bool)))) (pat : bytes) : option (bytes -> bool) :=
@@ -152,6 +165,24 @@ Fixpoint points_eqb (m : list (option rres)) (o : list rres) : bool :=
   | _, _ => false
   end.
 
+(* POST query probes at the state after commit + newversion: the model's request gives the answer *)
+Definition ro_model_ok (V : variant) (rx : bytes -> option (bytes -> bool)) (s2 : state) (p : roprobe) : bool :=
+  let n := length (st_parents s2) in
+  let ref := VM (if ro_head p then n else Nat.pred n) in
+  match snd (post_query rx V s2 (mkQ ref (ro_body p) (ro_onlyid p) (ro_fm p) (ro_sh p))) with
+  | Some x => rres_eqb x (ro_ans p)
+  | None => false
+  end.
+(* the order-quantified updateJSON under four fair orders (list order = Model.NJ.updateJSON,
+   reversed, rotated, revisiting) gives the annotation every run of the implementation stored *)
+Definition ord_orders : list orders := [ord_id; ord_rev; ord_rot; ord_revisit].
+Definition ord_model_ok (o : ordobs) : bool :=
+  forallb (fun run =>
+    forallb (fun sg =>
+      obj_eqb (selectFields (snd (updateJSON_ord (oo_user o) (oo_conds o) (oo_replace o) (fst run) sg
+                                     (oo_orig o) (obj_of_list (oo_body o)))) [] sh11)
+              (snd run)) ord_orders) (oo_runs o).
+
 Definition model_ok_gen (V : variant) (c : c16case) : bool :=
   match replay V init_state (c_hist c) with
   | (Some s, ok) =>
@@ -160,6 +191,8 @@ Definition model_ok_gen (V : variant) (c : c16case) : bool :=
           ok && (let '(_, _, _, _, okt) := ps in okt)
           && forallb (fun rr => points_eqb (points V (rx_of (c_rx c)) ps (fst rr)) (snd rr)) (c_reads c)
           && (let '(_, _, _, s4, _) := ps in phases_ok V (rx_of (c_rx c)) s4 (c_phases c))
+          && (let '(_, s2, _, _, _) := ps in forallb (ro_model_ok V (rx_of (c_rx c)) s2) (c_ro c))
+          && forallb ord_model_ok (c_ord c)
       | None => false
       end
   | (None, ok) => ok
@@ -327,12 +360,25 @@ Definition config_hazard (c : c16case) : bool := hazard_walk (all_ops c) no_cfg 
 Definition init_hazard (c : c16case) : bool := lost_head_hazard c || config_hazard c.
 Definition hazard_class (c : c16case) : nat := if lost_head_hazard c then 11%nat else 10%nat.
 
+(* 13: a POST query changed what the store holds.  14: runs of one update differ (time stamps of
+   the run itself apart): the map iteration order shows in the stored annotation *)
+Definition norm_time (t : bytes) (o : obj) : obj :=
+  map (fun p => (fst p, if json_eqb (snd p) (JStr t) then JStr [] else snd p)) o.
+Definition ord_spec_ok (o : ordobs) : bool :=
+  match oo_runs o with
+  | [] => true
+  | r0 :: rest => forallb (fun r => obj_eqb (norm_time (fst r0) (snd r0)) (norm_time (fst r) (snd r))) rest
+  end.
+
 Definition spec_class (c : c16case) : nat :=
   if existsb (fun ob => match ob_cls ob with OPanic => true | _ => false end)
             (c_hist c ++ c_tail c ++ flat_map fst (c_phases c))
      || existsb (fun p => existsb (fun q => is_xpanic (snd q)) (snd p)) (c_phases c)
-     || existsb (fun rr => existsb is_xpanic (snd rr)) (c_reads c) then 7%nat
+     || existsb (fun rr => existsb is_xpanic (snd rr)) (c_reads c)
+     || existsb (fun p => is_xpanic (ro_ans p)) (c_ro c) then 7%nat
   else if negb (rules_walk [] (c_hist c)) then 6%nat
+  else if negb (forallb ro_same (c_ro c)) then 13%nat
+  else if negb (forallb ord_spec_ok (c_ord c)) then 14%nat
   else
     match find (fun rr => negb (same_answers rr) && Nat.ltb (req_class (fst rr)) 8) (c_reads c) with
     | Some rr => if init_hazard c then hazard_class c else req_class (fst rr)
